@@ -100,7 +100,10 @@ class PlanConverter:
                 if discrete_effect.is_positive:
                     add_effects.add(discrete_effect.untyped_representation)
                 else:
-                    delete_effects.add(discrete_effect.untyped_representation)
+                    # the deleted fact itself (without the "not" wrapper), so that it can be
+                    # compared with the facts that other actions add or require.
+                    deleted_fact = discrete_effect.copy(is_negated=True)
+                    delete_effects.add(deleted_fact.untyped_representation)
 
             for numeric_effect in effect.grounded_numeric_effects:
                 affected_variable = numeric_effect.root.children[
